@@ -50,11 +50,76 @@ func mutableGlobals(c *Ctx, g0 *MCG, scope PkgSet) map[*ssa.Global][]ssa.Instruc
 					if g := globalBase(ins.Map); g != nil && scope[g.Pkg.Pkg] {
 						out[g] = append(out[g], ins)
 					}
+				case ssa.CallInstruction:
+					// the address of the variable handed to a library function: the callee may write through it
+					for _, g := range globalsHandedOut(ins, scope) {
+						out[g] = append(out[g], ins)
+					}
 				}
 			}
 		}
 	}
 	return out
+}
+
+// globalsHandedOut: package variables (other than mutexes) whose address is an argument of a
+// call to a function of the library. The call counts as a write of the variable.
+func globalsHandedOut(ci ssa.CallInstruction, scope PkgSet) []*ssa.Global {
+	callee := ci.Common().StaticCallee()
+	if callee != nil && (callee.Pkg == nil || !scope[callee.Pkg.Pkg]) {
+		return nil
+	}
+	var out []*ssa.Global
+	for _, a := range ci.Common().Args {
+		g, ok := a.(*ssa.Global)
+		if !ok || g.Pkg == nil || !scope[g.Pkg.Pkg] {
+			continue
+		}
+		if isMutexType(g.Type().Underlying().(*types.Pointer).Elem()) {
+			continue
+		}
+		out = append(out, g)
+	}
+	return out
+}
+
+// paramGlobal: v is (a load of) a pointer parameter p, and every call site of p's function among
+// the functions accepted by inReach passes the address of one and the same package variable.
+func paramGlobal(c *Ctx, v ssa.Value, inReach func(*ssa.Function) bool) *ssa.Global {
+	if u, ok := v.(*ssa.UnOp); ok {
+		v = u.X
+	}
+	p, ok := v.(*ssa.Parameter)
+	if !ok {
+		return nil
+	}
+	f := p.Parent()
+	idx := -1
+	for i, q := range f.Params {
+		if q == p {
+			idx = i
+		}
+	}
+	sites, static := c.staticCallers(f)
+	if idx < 0 || !static {
+		return nil
+	}
+	var g *ssa.Global
+	for _, s := range sites {
+		if !inReach(s.Parent()) {
+			continue
+		}
+		args := s.Common().Args
+		if idx >= len(args) {
+			return nil
+		}
+		ag, ok := args[idx].(*ssa.Global)
+		if !ok || (g != nil && ag != g) {
+			return nil
+		}
+		g = ag
+	}
+	return g
 }
 
 // globalBase: the value is (a field/element address inside) something loaded directly from a global.
@@ -229,6 +294,12 @@ func runLOCKIn(c *Ctx, r *Result, rule string, g0 *MCG, scope PkgSet, evalFns []
 				case *ssa.MapUpdate:
 					if globalBase(x.Map) == g {
 						need, what = lkW, "update of the map in "+gname
+					}
+				case ssa.CallInstruction:
+					for _, hg := range globalsHandedOut(x, scope) {
+						if hg == g {
+							need, what = lkW, "call that receives the address of "+gname
+						}
 					}
 				}
 				if need == 0 {
@@ -499,8 +570,44 @@ func runREG(c *Ctx, r *Result, rule string) {
 	}
 }
 
-// validatedBefore: the MapUpdate is dominated by the success edge of a call to the named validator.
+// validatedBefore: the MapUpdate is dominated by the success edge of a call to the named validator
+// (or of a wrapper that returns a nil error only after the validator succeeded).
 func validatedBefore(f *ssa.Function, mu *ssa.MapUpdate, validator string) bool {
+	return blockValidated(f, mu.Block(), validator, 0)
+}
+
+// isValidatorCall: the call is to the validator itself, or to a module function with a single
+// error result whose every nil return lies behind the validator's success edge.
+func isValidatorCall(call *ssa.Call, validator string, depth int) (direct bool, wrapper bool) {
+	cal := call.Call.StaticCallee()
+	if cal == nil {
+		return false, false
+	}
+	if cal.Name() == validator {
+		return true, false
+	}
+	if depth >= 2 || len(cal.Blocks) == 0 || cal.Signature.Results().Len() != 1 || !isErrorType(cal.Signature.Results().At(0).Type()) {
+		return false, false
+	}
+	nilRets := 0
+	for _, b := range cal.Blocks {
+		ret, ok := b.Instrs[len(b.Instrs)-1].(*ssa.Return)
+		if !ok {
+			continue
+		}
+		if k, isK := ret.Results[0].(*ssa.Const); isK && k.IsNil() {
+			nilRets++
+			if !blockValidated(cal, b, validator, depth+1) {
+				return false, false
+			}
+		} else if !definitelyNonNil(ret.Results[0], b) {
+			return false, false
+		}
+	}
+	return false, nilRets > 0
+}
+
+func blockValidated(f *ssa.Function, target *ssa.BasicBlock, validator string, depth int) bool {
 	for _, b := range f.Blocks {
 		if len(b.Instrs) == 0 {
 			continue
@@ -512,20 +619,29 @@ func validatedBefore(f *ssa.Function, mu *ssa.MapUpdate, validator string) bool 
 		succ := -1
 		switch cond := iff.Cond.(type) {
 		case *ssa.Call:
-			if cal := cond.Call.StaticCallee(); cal != nil && cal.Name() == validator {
+			if direct, _ := isValidatorCall(cond, validator, depth); direct {
 				succ = 0
 			}
 		case *ssa.UnOp:
 			if call, ok := cond.X.(*ssa.Call); ok {
-				if cal := call.Call.StaticCallee(); cal != nil && cal.Name() == validator {
+				if direct, _ := isValidatorCall(call, validator, depth); direct {
 					succ = 1
 				}
 			}
 		case *ssa.BinOp:
-			// err != nil / err == nil with err from the validator
-			if ex, ok := cond.X.(*ssa.Extract); ok {
-				if call, ok := ex.Tuple.(*ssa.Call); ok {
-					if cal := call.Call.StaticCallee(); cal != nil && cal.Name() == validator {
+			// err != nil / err == nil with err from the validator (or a wrapper of it)
+			var call *ssa.Call
+			switch x := cond.X.(type) {
+			case *ssa.Extract:
+				call, _ = x.Tuple.(*ssa.Call)
+			case *ssa.Call:
+				call = x
+			}
+			if call != nil {
+				direct, wrapper := isValidatorCall(call, validator, depth)
+				_, isExtract := cond.X.(*ssa.Extract)
+				if (direct && isExtract) || wrapper {
+					if k, isK := cond.Y.(*ssa.Const); isK && k.IsNil() {
 						if cond.Op.String() == "!=" {
 							succ = 1
 						} else if cond.Op.String() == "==" {
@@ -539,7 +655,7 @@ func validatedBefore(f *ssa.Function, mu *ssa.MapUpdate, validator string) bool 
 			continue
 		}
 		t := b.Succs[succ]
-		if len(t.Preds) == 1 && t.Dominates(mu.Block()) {
+		if len(t.Preds) == 1 && t.Dominates(target) {
 			return true
 		}
 	}
